@@ -257,12 +257,13 @@ def transform_history_rule(repo, rep):
                 if ok:
                     wb = wl[0].body
                     txt = [_k(s) for s in wb]
-                    pops = [s for s in ast.walk(wl[0]) if isinstance(s, ast.Call) and _k(s.func).endswith(".pop") and _k(s.args[0]) == "0"]
+                    pops = [s for s in ast.walk(wl[0]) if isinstance(s, ast.Call) and _k(s.func).endswith(".pop") and s.args and _k(s.args[0]) == "0"]
+                    allpops = [s for s in ast.walk(wl[0]) if isinstance(s, ast.Call) and _k(s.func).endswith(".pop")]
                     letters = [_k(_append_of(s)[1]) for s in ast.walk(wl[0]) if isinstance(s, ast.Expr) and _append_of(s)
                                and _k(_append_of(s)[0]) == "node_history[%s][1]" % node]
                     reset = [s for s in wb if isinstance(s, ast.If) and _k(s.test).replace("time", "T") in ("T==tmin", "tmin==T")]
-                    ok = len(pops) == 2 and letters == ["'I'", "'S'"] and len(reset) == 1
-                rep.ob("HIST", ok, "SIS: infection and recovery times are consumed alternately as I, S; an infection at tmin replaces the default",
+                    ok = len(pops) == 2 and len(allpops) == 2 and letters == ["'I'", "'S'"] and len(reset) == 1
+                rep.ob("HIST", ok, "SIS: infection and recovery times are consumed alternately from the front (oldest first) as I, S; an infection at tmin replaces the default",
                        func=f, node=st, construct="SIS loop", detail="" if ok else "SIS history reconstruction changed")
     rep.floor("HIST", "reconstruction loops", nloops, 3)
 
@@ -857,3 +858,54 @@ def full_data_handoff(repo, rep):
             ok = _k(d[0].value.key) == kk and _k(d[0].value.value) == "%s[0]" % vv
         rep.ob("HANDOFF", ok, "Gillespie_SIR: %s maps every node to the time of its (only) such event" % nm, func=g, node=d[0] if d else g.node,
                construct="%s conversion" % nm, detail="" if ok else "conversion of %s changed" % nm)
+
+
+def tmin_relative_defaults(repo, rep):
+    rep.rule("TMIN", "sentinel times are expressed relative to tmin: the 'never infected' recovery time is tmin - c (c > 0), the "
+                     "'no infection predicted' time is +Inf; the simulation clock starts at tmin")
+    for name in ("fast_nonMarkov_SIR", "fast_SIS", "fast_nonMarkov_SIS"):
+        f = repo.f(name)
+        rep.analysed(f)
+        for n in own_nodes(f.node):
+            if isinstance(n, ast.Assign) and _k(n.targets[0]) in ("rec_time", "pred_inf_time") and isinstance(n.value, ast.Call) \
+                    and _k(n.value.func) == "defaultdict" and n.value.args and isinstance(n.value.args[0], ast.Lambda):
+                body = n.value.args[0].body
+                if _k(n.targets[0]) == "rec_time":
+                    ok = isinstance(body, ast.BinOp) and isinstance(body.op, ast.Sub) and _k(body.left) == "tmin" \
+                        and isinstance(body.right, ast.Constant) and isinstance(body.right.value, (int, float)) and body.right.value > 0
+                    why = "the default recovery time of a never-infected node must lie before tmin whatever tmin is (tmin - 1); %s does not for tmin <= %s" % (_k(body), _k(body))
+                else:
+                    ok = _k(body) in ("float('Inf')",)
+                    why = "default predicted infection time must be +Inf"
+                rep.ob("TMIN", ok, "%s: default of %s" % (name, _k(n.targets[0])), func=f, node=n, construct="%s default %s" % (_k(n.targets[0]), _k(body)),
+                       detail="" if ok else why)
+    for name in ("Gillespie_SIR", "Gillespie_SIS", "Gillespie_simple_contagion", "Gillespie_complex_contagion"):
+        f = repo.f(name)
+        rep.analysed(f)
+        loop = [x for x in f.node.body if isinstance(x, ast.While)][0]
+        tvar = None
+        for fx, pol in atomic_facts(loop.test, True):
+            if isinstance(fx, ast.Compare) and isinstance(fx.ops[0], ast.Lt) and _k(fx.comparators[0]) == "tmax" and isinstance(fx.left, ast.Name):
+                tvar = fx.left.id
+        if tvar is None:
+            continue
+        defs = [x for x in f.node.body[:f.node.body.index(loop)] if isinstance(x, (ast.Assign, ast.AugAssign))
+                and _k(x.targets[0] if isinstance(x, ast.Assign) else x.target) == tvar]
+        ok = len(defs) >= 1 and isinstance(defs[0], ast.Assign) and _k(defs[0].value) == "tmin"
+        for d in defs[1:]:
+            v = _k(d.value)
+            ok = ok and ((isinstance(d, ast.AugAssign) and isinstance(d.op, ast.Add) and v == "delay") or v in ("%s+delay" % tvar, "delay+%s" % tvar))
+        rep.ob("TMIN", ok, "%s: the clock starts at tmin and only advances by the drawn delays" % name, func=f, node=defs[0] if defs else loop,
+               construct="%s clock defs before the loop: %s" % (name, [_k(d) for d in defs]),
+               detail="" if ok else "the event clock `%s` is not initialised to tmin (+ delay): times are reported from another origin and tmax is measured from it" % tvar)
+        # events are reported at the clock itself (no offset added when recording)
+    for name in ("discrete_SIR", "basic_discrete_SIS"):
+        f = repo.f(name)
+        rep.analysed(f)
+        rst, names = series_names(f)
+        tser = names[0] if names else "t"
+        for n in own_nodes(f.node):
+            if isinstance(n, ast.Assign) and _k(n.targets[0]) == "next_time":
+                ok = _k(n.value) in ("%s[-1]+1" % tser, "1+%s[-1]" % tser)
+                rep.ob("TMIN", ok, "%s: the time of the next step is the last reported time + 1" % name, func=f, node=n,
+                       construct="next_time = %s" % _k(n.value), detail="" if ok else "next_time is %s: only equal to the next step when tmin is 0" % _k(n.value))
